@@ -461,11 +461,18 @@ func (r *Rec) Fail(c *Case, err error) {
 	c.fill()
 	cc := *c
 	cc.Note = err.Error()
+	first := r.violation == nil
 	r.violation = &cc
 	r.vioErr = err.Error()
 	b, _ := json.MarshalIndent(&cc, "", " ")
 	_ = os.MkdirAll(r.Cfg.Replay, 0o755)
 	_ = os.WriteFile(r.ReplayPath(), b, 0o644)
+	if first {
+		// the first failing case of the process, before any shrinking: if the fault corrupted
+		// process-wide state, the shrunk case may only fail in this process; the driver falls
+		// back to this one
+		_ = os.WriteFile(r.ReplayPath()+".first", b, 0o644)
+	}
 }
 
 func (r *Rec) Failed() bool { return r.violation != nil }
